@@ -370,6 +370,8 @@ class Path:
         self.counter += 1
         name = f'{hint}!{self.counter}'
         c = z3.Const(name, sort)
+        if getattr(self, 'fresh_log', None) is not None:
+            self.fresh_log.append(c)
         return c
 
     def assume(self, cond):
@@ -799,6 +801,14 @@ class Interp:
             self.oos('if statement in spec mode (use functional form)', s)
         if _mergeable(s):
             return self.merged_if(s)
+        if getattr(self.contract, 'merge_ifs', False) and _assign_only(s):
+            saved_env, npc = dict(self.env), len(self.p.pc)
+            try:
+                return self.merged_if(s)
+            except OutOfSubset:
+                # values that cannot be merged with ite (lists): take the branches as separate paths
+                self.env = saved_env
+                del self.p.pc[npc:]
         if self.test(s.test):
             self.block(s.body)
         else:
@@ -1842,6 +1852,18 @@ class Interp:
 
     # ---- collections displays ------------------------------------------------------
     def ex_List(self, n):
+        if n.elts and not any(isinstance(e, ast.Starred) for e in n.elts):
+            vals = [self.ev(e) for e in n.elts]
+            inner = next((v for v in vals if isinstance(v, ArrList)), None)
+            if inner is not None:
+                # a list of lists, at least one of them array-backed: an array-backed list of (items, n) records
+                elem = f'arrlist[{inner.elem}]'
+                es = S.sort_of(elem)
+                arr = self.p.fresh('lol_a', z3.ArraySort(z3.IntSort(), es))
+                for j, v in enumerate(vals):
+                    arr = z3.Store(arr, j, self.coerce_sort(self.to_arrlist(v, inner.elem, n), es, n))
+                return ArrList(arr, z3.IntVal(len(vals)), elem)
+            return self._list_of(vals, n.elts)
         parts = []
         for e in n.elts:
             if isinstance(e, ast.Starred):
@@ -1857,6 +1879,17 @@ class Interp:
                     parts.append(z3.Unit(self.to_val(v, e)))
         if not parts:
             return z3.Empty(S.SeqVal)
+        return parts[0] if len(parts) == 1 else z3.Concat(*parts)
+
+    def _list_of(self, vals, nodes):
+        parts = []
+        for v, e in zip(vals, nodes):
+            if isinstance(v, ZRec):
+                parts.append(z3.Unit(v.get()))
+            elif S.is_record(v):
+                parts.append(z3.Unit(v))
+            else:
+                parts.append(z3.Unit(self.to_val(v, e)))
         return parts[0] if len(parts) == 1 else z3.Concat(*parts)
 
     def ex_Tuple(self, n):
@@ -2568,6 +2601,8 @@ class Interp:
         for a in n.args:
             if isinstance(a, ast.Starred):
                 v = self.ev(a.value)
+                if isinstance(v, GenExp) and len(v.node.generators) == 1 and not v.node.generators[0].ifs and not self.spec:
+                    v = v.interp.comp_as_arrlist(v.node.elt, v.node.generators[0], n)
                 if isinstance(v, PyTuple):
                     args.extend(v.items)
                 else:
@@ -2755,7 +2790,58 @@ class Interp:
         return Closure(n, self.env, self.module, self.cls)
 
     def ex_ListComp(self, n):
+        if len(n.generators) == 1 and not n.generators[0].ifs and not self.spec:
+            return self.comp_as_arrlist(n.elt, n.generators[0], n)
         self.oos('list comprehension', n)
+
+    def comp_as_arrlist(self, elt, gen, n):
+        """[f(x) for x in xs] where f(x) is a list described by a contract: an array-backed list of lists whose j-th element
+        satisfies, for EVERY j, what one evaluation of f(xs[j]) for an arbitrary index j establishes (the fresh symbols of that
+        evaluation become functions of j).  Obligations raised by the evaluation hold for the arbitrary j, hence for all."""
+        p = self.p
+        seqv = self.ev(gen.iter)
+        ln, getter = self.iter_access(seqv, n)
+        j = z3.FreshConst(z3.IntSort(), 'j')
+        rng = z3.And(j >= 0, j < ln)
+        mark_pc, mark_ax, idx0 = len(p.pc), len(p.path_axioms), p.idx
+        p.solver.push()
+        p.fresh_log = []
+        try:
+            p.pc.append(rng)
+            p.solver.add(rng)
+            sub = Interp(p, self.module, dict(self.env), spec=False, cls=self.cls, fname=self.fname + '<comp>', depth=self.depth + 1)
+            sub.contract = self.contract
+            sub.assign(gen.target, getter(j))
+            r = sub.ev(elt)
+        finally:
+            fresh = p.fresh_log
+            p.fresh_log = None
+            added = p.pc[mark_pc + 1:]
+            del p.pc[mark_pc:]
+            added_ax = p.path_axioms[mark_ax:]
+            del p.path_axioms[mark_ax:]
+            p.solver.pop()
+        if p.idx != idx0:
+            self.oos('comprehension whose element expression branches', n)
+        if not isinstance(r, ArrList):
+            self.oos('comprehension whose elements are not contract-described lists', n)
+        subst = [(c, self.w.uf(f'sk_{c.decl().name()}', z3.IntSort(), c.sort())(j)) for c in fresh]
+        gen_ = lambda t: z3.substitute(t, *subst) if subst else t
+        elem = f'arrlist[{r.elem}]'
+        es = S.sort_of(elem)
+        outer = p.fresh('comp_a', z3.ArraySort(z3.IntSort(), es))
+        rname = S.record_name(es)
+        facts = [gen_(a) for a in added if not any(a.eq(x) for x in added_ax)]
+        facts.append(z3.Select(outer, j) == S.rec_make(rname, items=gen_(r.arr), n=gen_(r.n)))
+        ax = z3.ForAll([j], z3.Implies(rng, z3.And(*facts)))
+        p.path_axioms.append(ax)
+        p.pc.append(ax)
+        for a in added_ax:
+            # quantified facts of the evaluation (already closed formulas over the fresh symbols): generalised the same way
+            g = z3.ForAll([j], z3.Implies(rng, gen_(a)))
+            p.path_axioms.append(g)
+            p.pc.append(g)
+        return ArrList(outer, ln, elem)
 
     def _comp_cond(self, gen, bind):
         """the conjunction of a comprehension's `if` clauses for the bound variables, evaluated without forking
@@ -2905,6 +2991,28 @@ def _mergeable(s) -> bool:
         return False
     # only the plain accumulate shape  `if c: lst.append(x)`  is merged; decision ifs keep their precise paths
     return len(s.body) == 1 and not s.orelse and simple(s.body) and _has_append_or_assign(s)
+
+
+def _assign_only(s) -> bool:
+    """an if / elif / else chain whose branches only assign local names (contracts opt in with merge_ifs: the values are
+    merged with ite, calls in the branches are evaluated under the branch condition)"""
+    def simple(stmts):
+        for st in stmts:
+            if isinstance(st, ast.If):
+                if not (simple(st.body) and simple(st.orelse)):
+                    return False
+            elif isinstance(st, (ast.Assign, ast.AnnAssign)):
+                tg = st.targets if isinstance(st, ast.Assign) else [st.target]
+                if not all(isinstance(t, ast.Name) for t in tg):
+                    return False
+                if any(isinstance(x, (ast.NamedExpr, ast.Yield, ast.Await)) for x in ast.walk(st)):
+                    return False
+            elif isinstance(st, ast.Pass):
+                continue
+            else:
+                return False
+        return True
+    return not any(isinstance(x, ast.NamedExpr) for x in ast.walk(s.test)) and simple(s.body) and simple(s.orelse)
 
 
 def _pure_call(x) -> bool:
